@@ -880,6 +880,7 @@ func (p *proxy) fanOutProduce(ctx context.Context, header *protocol.RequestHeade
 				results[i] = fanOutResult{subReq: w.subReq, target: w.target, err: parseErr}
 				return
 			}
+			alignProduceResponse(w.subReq, subResp)
 			results[i] = fanOutResult{subReq: w.subReq, subResp: subResp, conn: w.conn, target: w.target}
 		}()
 	}
@@ -898,6 +899,74 @@ func (p *proxy) connectForAddr(ctx context.Context, addr string, exclude map[str
 		}
 	}
 	return p.connectBackendExcluding(ctx, exclude)
+}
+
+// alignProduceResponse makes a backend's reply answer exactly the partitions of
+// the sub-request it was sent. Entries for partitions that were not asked for,
+// or that repeat an earlier entry, are dropped; a partition the backend left
+// out is reported as failed.
+func alignProduceResponse(req *kmsg.ProduceRequest, resp *kmsg.ProduceResponse) {
+	topics := make([]kmsg.ProduceResponseTopic, 0, len(req.Topics))
+	for _, topic := range req.Topics {
+		rt := kmsg.ProduceResponseTopic{Topic: topic.Topic}
+		for _, part := range topic.Partitions {
+			entry := kmsg.ProduceResponseTopicPartition{
+				Partition:  part.Partition,
+				ErrorCode:  protocol.REQUEST_TIMED_OUT,
+				BaseOffset: -1,
+			}
+		search:
+			for _, got := range resp.Topics {
+				if got.Topic != topic.Topic {
+					continue
+				}
+				for _, gp := range got.Partitions {
+					if gp.Partition == part.Partition {
+						entry = gp
+						break search
+					}
+				}
+			}
+			rt.Partitions = append(rt.Partitions, entry)
+		}
+		topics = append(topics, rt)
+	}
+	resp.Topics = topics
+}
+
+// alignFetchResponse is alignProduceResponse for fetch replies. A reply topic
+// is matched by name when it carries one, by ID otherwise (v13+ replies carry
+// IDs only).
+func alignFetchResponse(req *kmsg.FetchRequest, resp *kmsg.FetchResponse) {
+	topics := make([]kmsg.FetchResponseTopic, 0, len(req.Topics))
+	for _, topic := range req.Topics {
+		rt := kmsg.FetchResponseTopic{Topic: topic.Topic, TopicID: topic.TopicID}
+		for _, part := range topic.Partitions {
+			entry := kmsg.FetchResponseTopicPartition{
+				Partition: part.Partition,
+				ErrorCode: protocol.REQUEST_TIMED_OUT,
+			}
+		search:
+			for _, got := range resp.Topics {
+				if got.Topic != "" {
+					if got.Topic != topic.Topic {
+						continue
+					}
+				} else if got.TopicID != topic.TopicID {
+					continue
+				}
+				for _, gp := range got.Partitions {
+					if gp.Partition == part.Partition {
+						entry = gp
+						break search
+					}
+				}
+			}
+			rt.Partitions = append(rt.Partitions, entry)
+		}
+		topics = append(topics, rt)
+	}
+	resp.Topics = topics
 }
 
 func findOrAddTopicResponse(resp *kmsg.ProduceResponse, name string) *kmsg.ProduceResponseTopic {
@@ -1860,6 +1929,7 @@ func (p *proxy) fanOutFetch(ctx context.Context, header *protocol.RequestHeader,
 				results[i] = fetchFanOutResult{subReq: w.subReq, target: w.target, err: parseErr}
 				return
 			}
+			alignFetchResponse(w.subReq, subResp)
 			results[i] = fetchFanOutResult{subReq: w.subReq, subResp: subResp, conn: w.conn, target: w.target}
 		}()
 	}
